@@ -349,7 +349,11 @@ def call_numpy(it, name, mod, fn, args, kwargs, node, fr):
             src = shape
             a = as_arr(src)
             if a is not None:
-                return Arr([fv] * len(a.cols), a.ndim, a.space)
+                r_ = Arr([fv] * len(a.cols), a.ndim, a.space)
+                # x_like(<array exactly as the caller gave it>) without dtype=: the new array has the caller's element type, whatever it is
+                if dt is None and all(isinstance(c_, T) and c_.op == "sym" for c_ in a.cols):
+                    r_.like_input = True
+                return r_
             v = Val(fv, space=getattr(src, "space", None))
             v.alloc = fn
             v.like = src
@@ -852,6 +856,13 @@ def call_pandas(it, fn, args, kwargs, node, fr):
             f = Frame(dict(zip(names, cols_)), list(names), name="new", space=a.space)
             f.labels_positional = True
             f.alloc = getattr(a, "alloc", None)
+            return f
+        if cols is None and isinstance(data, Seq) and data.kind == "list" and len(data.items) == 1 and isinstance(data.items[0], (Val, Unk)) \
+                and as_arr(data.items[0]) is None and kwargs.get("index") is None:
+            # pd.DataFrame([x]): one row, one column (labelled 0) holding x
+            f = Frame({0: to_term(data.items[0])}, [0], name="new")
+            f.space = Space("one row", how="root")
+            f.labels_positional = True
             return f
         if data is None and cols is None:
             f = Frame(name="empty", order=[])
